@@ -9,7 +9,7 @@ signed-permutation model (C08/Signed.v); both proved for every number of control
 gate-list correspondence (harness/c08_mcx_model.py).  Bounded instances (symbolic matrices m <= 5, all
 2^n basis states of the real gate lists n <= 9/11) stay as independent cross-checks.
 """
-STATIC = ["Base/TrigMat", "C08/Reversible", "C08/Signed", "C08/MCXProps"]
+STATIC = ["Base/TrigMat", "C08/Reversible", "C08/Signed", "C08/MCXProps", "C08/PropsCircuit"]
 import random
 
 import numpy as np
@@ -173,20 +173,37 @@ def mcx_witness(mt):
 
 
 def circuit_items(tier):
+    """circuits decomposed by the real Circuit.decompose with symbolic parameters (exact, all angles): members that
+    agree on class / ordered qubits / parameters and differ in construction data, order or identity"""
     from qibo import Circuit
     gg = qtrace.mod("qibo.gates.gates")
 
-    def b(params):
-        def mk():
-            c = Circuit(4)
-            c.add(gg.CRY(3, 1, params[0]))
-            c.add(gg.RXXYY(2, 0, params[1]))
-            c.add(gg.CCZ(1, 3, 0))
-            c.add(gg.U3(2, params[0], params[1], params[2]))
-            c.add(gg.ECR(0, 3))
-            return c
-        return list(mk().decompose().queue), list(mk().queue), 4
-    return [Item("circuit_decompose_mixed", "circuit_decompose", 3, b, meta={"circuit": "CRY,RXXYY,CCZ,U3,ECR on 4 qubits"})]
+    def item(name, n, nparams, fill, meta):
+        def b(params):
+            def mk():
+                c = Circuit(n)
+                fill(c, params)
+                return c
+            return list(mk().decompose().queue), list(mk().queue), n
+        return Item(name, "circuit_decompose" if name == "circuit_decompose_mixed" else f"circuit_sym:{name}", nparams, b, meta={"circuit": meta})
+
+    def mixed(c, p):
+        c.add(gg.CRY(3, 1, p[0])); c.add(gg.RXXYY(2, 0, p[1])); c.add(gg.CCZ(1, 3, 0)); c.add(gg.U3(2, p[0], p[1], p[2])); c.add(gg.ECR(0, 3))
+
+    def grbs_splits(c, p):
+        # same ordered qubits (2,0,1), same angles, the two in/out splits, a rotation in between, each twice
+        c.add(gg.GeneralizedRBS([2], [0, 1], p[0], p[1])); c.add(gg.RY(0, p[0]))
+        c.add(gg.GeneralizedRBS([2, 0], [1], p[0], p[1])); c.add(gg.GeneralizedRBS([2], [0, 1], p[0], p[1]))
+
+    def same_class(c, p):
+        g = gg.RZX(0, 1, p[0])
+        c.add(g); c.add(gg.RZX(1, 0, p[0])); c.add(gg.RZX(0, 1, p[1])); c.add(g); c.add(gg.RZX(2, 1, p[0]))
+        h = gg.CRY(2, 0, p[1]); h.parameters = p[0]
+        c.add(gg.CRY(2, 0, p[0])); c.add(gg.CRY(0, 2, p[0])); c.add(h); c.add(gg.CRY(2, 0, p[0], trainable=False))
+        c.add(gg.RY(0, p[0]).controlled_by(2))
+    return [item("circuit_decompose_mixed", 4, 3, mixed, "CRY,RXXYY,CCZ,U3,ECR on 4 qubits"),
+            item("grbs_splits", 3, 2, grbs_splits, "gRBS([2],[0,1]) RY gRBS([2,0],[1]) gRBS([2],[0,1]), same angles"),
+            item("same_class", 3, 2, same_class, "RZX / CRY: permuted qubits, other angle, same object twice, updated, frozen, controlled_by form")]
 
 
 def _snap(gs):
@@ -244,8 +261,28 @@ def history_checks(run, rng, only=None):
     run.oblige("decompose_is_a_function_of_the_current_gate", ok_all, "correspondence")
 
 
+def circuit_level(run, rng):
+    """Circuit.decompose(*free) and the construction-data streams (harness/c08_circuit.py)"""
+    from harness import c08_circuit as cc
+    from lib import vcore
+    thms = vcore.props_theorems("C08/PropsCircuit.v")
+    ok, pa = vcore.static_assumptions("C08/PropsCircuit")
+    run.notes["print_assumptions_circuit"] = pa
+    for t in thms:
+        closed = ok and "Closed under the global context" in pa.get(t, "")
+        run.oblige(t, closed, "static-theorem")
+        if not closed:
+            run.find(f"assumptions:{t}", f"theorem {t} of C08/PropsCircuit is not closed: {pa.get(t)}", {}, concrete=False)
+    cb_sound = cc.controlled_forms(run, rng)
+    free_ok = cc.free_through_wrapper(run)
+    cc.circuit_stream(run, rng, cb_sound, free_ok)
+    cc.wrapper_combinations(run, rng)
+
+
 RULE = ("one obligation per (gate class x placement); all classes of gates.py enumerated from the source; "
-        "multi-controlled X instances by number of controls / free qubits / Toffoli substitution")
+        "multi-controlled X instances by number of controls / free qubits / Toffoli substitution; "
+        "circuits = collision groups (same class/qubits/parameters, other construction data, order, history or identity) "
+        "between random gates of every class, with and without free qubits")
 
 
 def main(run):
@@ -255,6 +292,7 @@ def main(run):
                     "Base/Mat.v embed/cembed as the meaning of 'gate on qubits'"]
     run.assumptions += ["exact real arithmetic (rounding not modelled)"]
     history_checks(run, rng)
+    circuit_level(run, rng)
     tables.run_items(run, table_items(run.tier), "C08_tables", rng)
     tables.run_items(run, mcx_items(run.tier), "C08_mcx", rng)
     mcx_boolean(run, rng)
@@ -270,6 +308,18 @@ def replay(run, data):
     if key.startswith("decompose_history:"):
         history_checks(run, rng, only=data["replay"].get("class"))
         return run.finish(rule="replay of one recorded history")
+    if key.startswith(("circuit_decompose:", "decompose_controlled:", "decompose_member:")):
+        from harness import c08_circuit as cc
+        rep = data["replay"]
+        if "plan" in rep:
+            cc.report(run, [f for f in cc.run_plan(run, rep["plan"], "replay") if f[0] == key] )
+        elif key.startswith("decompose_controlled:"):
+            cc.controlled_forms(run, rng, only=rep.get("cls"))
+        elif key.startswith("circuit_decompose:free_"):
+            cc.free_through_wrapper(run, only=key.split(":")[-1])
+        elif key.startswith("circuit_decompose:wrapper") or key.startswith("circuit_decompose:measurement_basis"):
+            cc.wrapper_combinations(run, random.Random(0), theta=rep.get("theta"))
+        return run.finish(rule="replay of one recorded circuit-level case")
     if key.startswith("mcx_model:"):
         from harness import c08_mcx_model
         c08_mcx_model.replay_model_case(run, data["replay"])
